@@ -1,6 +1,7 @@
 \* C30 leg A thorough, planners "size" / "vdown" with a pre-existing no-compact mark: ranges 1/2/4 on the grid 0..4,
 \* <= 3 blocks with index size 1..2, <= 1 no-compact mark, 6 planner modes
 SPECIFICATION Spec
+PROPERTY Terminates
 CONSTANTS Ranges <- R124
           LoNeg = 0
           Hi = 4
